@@ -678,12 +678,8 @@ func (g *gen) condDir(depth int) piece {
 		if g.r.Chance(4) {
 			return piece{"~:[" + f.ctl + "~;" + t.ctl + "~]", nil} // no argument
 		}
-		if arg.k == kNil {
+		if arg.k == kNil || (arg.k == kList && len(arg.l) == 0) { // an empty list object is nil
 			return piece{"~:[" + f.ctl + "~;" + t.ctl + "~]", append([]val{arg}, f.args...)}
-		}
-		if arg.k == kList && len(arg.l) == 0 {
-			// an empty list object: the definition selects the false clause, slip the true one; give both their arguments
-			return piece{"~:[" + f.ctl + "~;" + t.ctl + "~]", append(append([]val{arg}, t.args...), f.args...)}
 		}
 		return piece{"~:[" + f.ctl + "~;" + t.ctl + "~]", append([]val{arg}, t.args...)}
 	case x < 35: // ~@[...~]
